@@ -971,6 +971,9 @@ class ManifestRecursiveLoader:
                         if not ret and diff[0][0] == '__type__':
                             raise ManifestIncompatibleEntry(
                                 out[fullpath][1], e, diff)
+                        # duplicate IGNORE entries are harmless, keep them
+                        if e.tag == 'IGNORE':
+                            continue
                         # otherwise, make sure we have all checksums
                         out[fullpath][1].checksums.update(e.checksums)
                         # and drop the duplicate
